@@ -202,6 +202,18 @@ class Runner:
             if not assum_ok:
                 broken.append("Print Assumptions reports an unexpected axiom or failed")
                 print(raw[-1500:])
+        # thorough tier: independent re-check of the property's compiled file and everything it depends on
+        self.coqchk = None
+        if self.tier == "thorough" and not b.proof_broken:
+            t0 = time.time()
+            rc, out = core.sh(["coqchk", "-silent", "-o", "-Q", os.path.join(core.COQ, "theories"), "Clemens",
+                               "-Q", os.path.join(core.COQ, "gen"), "ClemensGen", "Clemens.Props." + self.pid],
+                              cwd=core.COQ, timeout=7200)
+            tail = out[out.find("CONTEXT SUMMARY"):] if "CONTEXT SUMMARY" in out else out[-1500:]
+            self.coqchk = {"rc": rc, "wall_s": round(time.time() - t0, 1), "summary": tail[:1500]}
+            self.log("coqchk: rc=%d in %.0fs" % (rc, time.time() - t0))
+            if rc != 0:
+                broken.append("coqchk rejects Clemens.Props.%s" % self.pid)
         ndis = sum(1 for a in assum if a["closed"] or (a["axioms"] and not a["axioms"][0].startswith("<")))
         self.log("obligations: %d theorems in Props/%s.v, %d discharged, axioms: %s" % (
             len(assum), self.pid, ndis if assum_ok else 0,
@@ -330,6 +342,7 @@ class Runner:
                       "known_findings_hit": len(r.known), "wall_s": round(r.wall, 1),
                       "distribution": dict(sorted(r.stats.items())), "error": r.error} for r in results],
             "broken": broken,
+            "coqchk": getattr(self, "coqchk", None),
             "exhaustive": bool(spec.get("exhaustive", False)),
         }
         doc = {
